@@ -131,6 +131,10 @@ type gen struct {
 	nfn    int
 	nlabel int
 	top    int
+	// > 0 while the left side of an update is generated: no `a, b` there.  The
+	// embedded engine builds a self-containing array for
+	// `null | (.[0], .[:1]) |= [.]`, which no Go code can print or compare.
+	noComma int
 }
 
 // Gen draws one program.
@@ -401,7 +405,7 @@ type prod struct {
 
 var prodsByType [nTyp][]*prod
 
-var typOfLetter = map[byte]Typ{'a': TAny, 'n': TNum, 's': TStr, 'r': TArr, 'o': TObj, 'b': TBool, 'g': TAny, 'p': TAny}
+var typOfLetter = map[byte]Typ{'a': TAny, 'n': TNum, 's': TStr, 'r': TArr, 'o': TObj, 'b': TBool, 'g': TAny, 'p': TAny, 'u': TAny}
 
 func dotsMask(s string) uint8 {
 	var m uint8
@@ -417,7 +421,7 @@ func dotsMask(s string) uint8 {
 //	%0s %1s     same, but only precedence >= 0 / >= 1 is required at this position
 //	%s{o}       sub-expression whose input (dot) is an object (default: the ambient dot)
 //	%a %n %s %r %o %b   any / number / string / array / object / boolean
-//	%p          path expression, %g any (generator position)
+//	%p          path expression, %u path expression for the left side of an update, %g any (generator position)
 //	%R regex literal, %F flags literal, %L literal string with metacharacters,
 //	%S subject string literal, %K quoted key, %k identifier key, %N small int,
 //	%I index literal, %J string literal holding JSON text, %V variable or literal, %M number literal
@@ -662,6 +666,10 @@ func (g *gen) render(p *prod, d int, dot Typ) E {
 			var e E
 			if s.kind == 'p' {
 				e = g.path(d-1, sd)
+			} else if s.kind == 'u' {
+				g.noComma++
+				e = g.path(d-1, sd)
+				g.noComma--
 			} else {
 				e = g.expr(typOfLetter[s.kind], d-1, sd)
 			}
@@ -1074,7 +1082,9 @@ func (g *gen) structural(t Typ, d int, dot Typ) E {
 		return g.loop(t, d, dot)
 	case 16:
 		g.use("assign")
+		g.noComma++
 		p := g.path(d-1, dot)
+		g.noComma--
 		op := g.of("=", "|=", "+=", "-=", "*=", "/=", "%=", "//=")
 		var rhs E
 		if op == "|=" {
@@ -1220,7 +1230,7 @@ func (g *gen) fullExtra(t Typ, d int, dot Typ) E {
 		return E{g.wrap(x, PTerm) + " as " + g.of("[$a]", "{a: $a}", "$a", "[$a, [$b]]", "{\"k\": $a}", "{(\"a\"): $a}", "{$a: [$b]}") + " ?// " + g.of("$a", "[$a]", "{$a}") + " | " + y.S, PPipe}
 	case 18:
 		// every binary operator once, left to right: associativity and precedence must survive
-		ops := []string{"|", ",", "//", "or", "and", "or", "and", "==", "!=", "<", "<=", ">", ">=", "+", "-", "*", "/", "%", "=", "|=", "+=", "//="}
+		ops := []string{"|", ",", "//", "or", "and", "or", "and", "==", "!=", "<", "<=", ">", ">=", "+", "-", "*", "/", "%"}
 		n := 2 + g.n(4)
 		s := g.wrap(g.leaf(TAny, dot), PTerm)
 		for i := 0; i < n; i++ {
@@ -1238,7 +1248,11 @@ func (g *gen) fullExtra(t Typ, d int, dot Typ) E {
 		// comparison operators are non associative: a == b == c does not parse; callers discard parse errors
 		return E{s, PPipe}
 	case 19:
-		x, y := sub(), sub()
+		// left side: a path without `a, b` (see noComma)
+		g.noComma++
+		x := g.path(d-1, dot)
+		g.noComma--
+		y := sub()
 		op := g.of("=", "|=", "+=", "-=", "*=", "/=", "%=", "//=")
 		if op == "*=" {
 			y = E{g.of("0", "1", "2", "3", "0.5", "{}"), PTerm}
@@ -1672,6 +1686,9 @@ func (g *gen) path(d int, dot Typ) E {
 		y := g.path(d-1, TAny)
 		return E{g.wrap(x, PComma) + " | " + y.S, PPipe}
 	case 2:
+		if g.noComma > 0 {
+			return g.path(0, dot)
+		}
 		x := g.path(d-1, dot)
 		y := g.path(d-1, dot)
 		return E{g.wrap(x, PComma) + ", " + g.wrap(y, PAlt), PComma}
